@@ -500,6 +500,15 @@ func runSession(w *world, sp Spec, dir string) (tr Trace) {
 	core.Stdin = g
 
 	for run := 0; run < sp.Runs; run++ {
+		if sp.Stty && run > 0 {
+			// the application changes the terminal modes between two calls (stty): what the next call restores
+			// on its way out is what it finds now
+			if t, err := unix.IoctlGetTermios(0, unix.TCGETS); err == nil {
+				t.Lflag ^= unix.ECHOKE
+				t.Cc[unix.VQUIT] ^= 1
+				unix.IoctlSetTermios(0, unix.TCSETS, t)
+			}
+		}
 		tio0, _ := unix.IoctlGetTermios(0, unix.TCGETS)
 		var res Result
 		stop := false
